@@ -10,7 +10,7 @@ OUT = os.path.join(V, "tools", "mutants")
 M = [
  ("m01_skip_tax_transfer", "C01 C02", "AddEarnedFee keeps the tax in escrow", "keeper/fees.go",
   "\tif err := k.bankKeeper.SendCoinsFromModuleToModule(ctx, types.RequestAccName, k.feeCollectorName, taxCoins); err != nil {\n\t\treturn err\n\t}\n", ""),
- ("m02_refund_provider_at_expiry", "C02 C05", "expiry refunds the provider instead of the consumer", "abci.go",
+ ("m02_refund_provider_at_expiry", "C02", "expiry refunds the provider instead of the consumer", "abci.go",
   "_ = k.RefundServiceFee(ctx, request.Consumer, request.ServiceFee)", "_ = k.RefundServiceFee(ctx, request.Provider, request.ServiceFee)"),
  ("m03_drop_active_check", "C02 C08", "AddResponse no longer requires the request to be pending", "keeper/invocation.go",
   "\tif !k.IsRequestActive(ctx, requestID) {\n\t\treturn request, response, sdkerrors.Wrap(types.ErrInvalidResponse, \"request is not active\")\n\t}\n", ""),
